@@ -67,6 +67,26 @@ func HarnessC04Txn(st any) {
 			sym.Assert(ro.Len() == len(pre.ents), "read-only transaction opened during a write transaction sees the committed state")
 			ro.Abort()
 		}
+		if sym.ParamOr("snap", 0) == 1 {
+			// a snapshot of the write transaction is a read-only view: it refuses writes, and settling it
+			// neither publishes nor releases anything of its parent
+			snap := txn.Snapshot()
+			_, e1 := snap.Handle("GET", "/via/snapshot", noopHandler)
+			_, e2 := snap.Delete("GET", "/via/snapshot")
+			e3 := snap.Truncate()
+			sym.Assert(errors.Is(e1, fox.ErrReadOnlyTxn) && errors.Is(e2, fox.ErrReadOnlyTxn) && errors.Is(e3, fox.ErrReadOnlyTxn), "a snapshot of a write transaction refuses writes with ErrReadOnlyTxn")
+			checkObsOpt(snap, model, probes, "snapshot of the write transaction", false)
+			if sym.Bool("snapcommit") {
+				snap.Commit()
+			} else {
+				snap.Abort()
+			}
+			checkObs(s.r, pre, probes, "router after the snapshot was settled")
+			blocked := sym.WouldBlock(func() { _, _ = s.r.Handle("GET", "/second/writer", noopHandler) })
+			sym.Assert(blocked, "the parent still holds the writer lock after its snapshot was settled")
+			checkObsOpt(txn, model, probes, "txn after its snapshot was settled", false)
+			sym.Cover("snapshot of a write transaction settled")
+		}
 		switch ending {
 		case endUpdatesError:
 			return errInjected
